@@ -24,6 +24,22 @@ Tie / fault enumeration:
      parsed" deliveries are counted in the evidence, not reported.
  (C) command line: `decode`, `decode -m [--continue-on-error]`, `info` on damaged files: no traceback, a
      message on stderr (the exit status is 0 by design of `__init__.main`).
+ (E) declared-length sweep: for messages of every edition, with and without section 2, the declared length of EVERY
+     section 1..4 set to every value from 0 to beyond the real length (all values for short sections; for long ones
+     0..16, everything around the section's fixed part and around the real length, a sample between and far beyond),
+     the damaged message between two valid ones, full and metadata-only, with and without continue-on-error:
+     oracle of (B) + model.  (`len=` damage; its values below the fixed part of a section are what the theorems
+     `C12_short_section_length_*` speak about.)
+ (F) aborted template walks: a decode ABORTED at every point of the template walk - an undefined element / sequence
+     substituted at EVERY position of the descriptor list (inside 201/202/203/204/207/208 scopes, inside a bitmap
+     definition, inside replications, under 221/206) and the data section cut at many byte positions - on a plain and
+     on a compiled Decoder, each abort followed at once by decodes of valid messages on the same object, on the
+     other one and on a brand-new one; every such decode must give what a FRESH PROCESS gives for the message
+     (reference digests computed once per run in a separate interpreter) and, at the end of the history, what the
+     Lean coder model gives; the aborted decode itself is compared with the model's error family.
+     Theorems: Props/C12Aborted.lean (`C12_aborted_*`).
+ All parts compare every delivered undamaged message - bytes AND a digest of everything decoded - with the fresh-process
+ reference, so state shared by all Decoder objects of a process cannot hide behind "the fresh Decoder says the same".
  (D) histories: sessions of operations (process / process without signature search / scan; strict or lenient, full
      or metadata-only, with and without continue-on-error and filter; valid, damaged, truncated input; mixed
      editions and section-2 presence) in random order on ONE Decoder object; every operation against the same
@@ -58,14 +74,83 @@ META = dict(
          'truncation point, every subset of damaged messages x 5 damage kinds x modes, and the command line. The Decoder object is '
          'modelled as a state machine (its table of section configurations as a memo table): after ANY history of operations every '
          'operation gives the stateless model\'s result (C12_history_*); checked on the implementation by random sessions of '
-         'strict / lenient / metadata-only / failing decodes and scans on ONE Decoder object against a fresh object, the oracle and the model.',
+         'strict / lenient / metadata-only / failing decodes and scans on ONE Decoder object against a fresh object, the oracle and the model. '
+         'Declared section lengths: for every layout whose length comes first (all bundled ones, all decoding modes) every error of the '
+         'section decoder is a library error whatever the declared value, and a declared length below the fixed part of the section is '
+         'always refused, at every section, from any state of the section loop (C12_section_errors_are_library_errors, '
+         'C12_short_section_length_refused[_in_loop]); checked by a sweep of the declared length of EVERY section over every value from 0 '
+         'to beyond the real length. Aborted template walks: the coder state ACROSS walks is modelled (registers threaded from subset to '
+         'subset and message to message, reset_template_state as a function, an aborted walk leaves ANY registers) and after any history a '
+         'decode gives the stateless result (C12_aborted_*; with the reset of seeded change C12-4 it provably does not); checked by aborting '
+         'walks at every position of the descriptor list and at many cuts of the data on a plain and a compiled Decoder, each abort followed '
+         'by decodes of valid messages (canaries sensitive to every register first) on the same, the other and new objects, compared with a '
+         'FRESH PROCESS and the Lean coder model, and by comparing the registers of new / reset CoderState objects with the model\'s.',
     technique='Lean 4 theorems (induction over the stream, frame lemma) + checked model/implementation correspondence under fault enumeration',
     note='Which length faults are *detected* is not a theorem (BUFR has no checksum): the check counts damaged-but-still-parsed '
          'deliveries. In the one-byte skip branch the scan searches the signature again inside the damaged message; the theorem '
-         'requires its remainder to be signature-free and the check counts the streams where it is not.',
+         'requires its remainder to be signature-free and the check counts the streams where it is not. The data coder raises '
+         'non-library errors on garbled templates / data (F15) and can spin on a garbled replication factor (F23-C12): the two '
+         'section-length theorems carry the hypothesis that the data coder raises library errors only.',
 )
 
-TOLERANT = ('len-1', 'len+')
+TOLERANT = ('len-1', 'len+', 'len=')
+# damage kinds after which a full decode MAY legitimately succeed (no checksum / a position the walk never reaches)
+MAY_PARSE = TOLERANT + ('undef-at',)
+
+
+# ---------------------------------------------------------------------------------------------
+# reference: what a FRESH PROCESS (new interpreter, new Decoder per message, nothing but successful decodes of valid
+# messages before) gives for a valid message.  "The fresh Decoder of this process says the same" proves nothing when the
+# state that leaked is shared by all Decoder objects of the process (module-level defaults, class attributes, caches).
+REF = {}        # message bytes -> {'full': [outcome, n serialized bytes, digest], 'info': [...]}
+
+
+def _reference_main():
+    """runs in the fresh interpreter: {messages: [hex]} on stdin -> {hex: {...}} on stdout"""
+    from pybufrkit.decoder import Decoder
+    req = json.load(sys.stdin)
+    out = {}
+    for hx in req['messages']:
+        b = bytes.fromhex(hx)
+        r = {}
+        for io_ in (False, True):
+            try:
+                m = Decoder().process(b, info_only=io_, wire_template_data=False)
+                r['info' if io_ else 'full'] = ['ok', len(m.serialized_bytes), digest(m)]
+            except Exception as e:  # noqa
+                r['info' if io_ else 'full'] = [core.err_tag(e), 0, type(e).__name__]
+        out[hx] = r
+    json.dump(out, sys.stdout)
+
+
+def fresh_reference(messages):
+    """decode every message (bytes) in ONE new interpreter; fills REF; -> the messages that do not decode there"""
+    todo = sorted(set(b for b in messages if b not in REF))
+    if not todo:
+        return []
+    p = subprocess.run([sys.executable, '-c', 'from harness.props import c12; c12._reference_main()'], cwd=core.VERIF,
+                       input=json.dumps({'messages': [b.hex() for b in todo]}), stdout=subprocess.PIPE,
+                       stderr=subprocess.PIPE, text=True, timeout=600, env=dict(os.environ))
+    if p.returncode != 0:
+        raise core.MachineryError('reference interpreter failed: ' + p.stderr[-1500:])
+    res = json.loads(p.stdout)
+    bad = []
+    for b in todo:
+        REF[b] = res[b.hex()]
+        if REF[b]['full'][0] != 'ok' or REF[b]['info'][0] != 'ok':
+            bad.append(b)
+    return bad
+
+
+def ref_mismatch(orig, info_only, dg):
+    """None, or how the digest `dg` of a delivered valid message `orig` differs from the fresh-process reference"""
+    r = REF.get(orig)
+    if r is None or dg is None:
+        return None
+    want = r['info' if info_only else 'full']
+    if want[0] == 'ok' and want[2] != dg:
+        return 'decoded content differs from what a fresh process decodes (digest %s, reference %s)' % (dg, want[2])
+    return None
 
 
 # ---------------------------------------------------------------------------------------------
@@ -101,7 +186,35 @@ def damage_variants(rng, m):
     pos, n = secs[i]
     d = rng.randint(1, 3)
     out.append(('len+', [i, d], b[:pos] + (n + d).to_bytes(3, 'big') + b[pos + 3:]))
+    # any declared length from 0 to beyond the real one (below the section's fixed part with probability 1/2)
+    i = rng.choice(present)
+    pos, n = secs[i]
+    fx = fixed_octets(i, m.edition)
+    v = rng.randrange(0, fx) if rng.random() < 0.5 else rng.randrange(0, n + 9)
+    if v != n:
+        out.append(('len=', [i, v, n, fx], with_length(b, pos, v)))
+    # an undefined descriptor at ANY position of the list (inside operator scopes, replications, bitmap definitions;
+    # possibly at a position the walk never reaches: after 206YYY, under 221YYY, in a replication repeated 0 times)
+    if nd > 0:
+        k = rng.randrange(nd)
+        ident = rng.choice([S.UNDEF_ELEM, S.UNDEF_SEQ])
+        out.append(('undef-at', [k, ident], with_descriptor(b, pos3, k, ident)))
     return out
+
+
+def fixed_octets(index, edition):
+    """octets of the fixed-width parameters of a section (what is read whatever the declared length says)"""
+    return sum(p['nbits'] for p in C.section_layout(index, edition)['parameters']) // 8
+
+
+def with_length(b, pos, v):
+    return b[:pos] + v.to_bytes(3, 'big') + b[pos + 3:]
+
+
+def with_descriptor(b, pos3, k, ident):
+    w = ((ident // 100000) << 14) | ((ident // 1000 % 100) << 8) | (ident % 1000)
+    o = pos3 + 7 + 2 * k
+    return b[:o] + w.to_bytes(2, 'big') + b[o + 2:]
 
 
 def locate_items(s, items):
@@ -128,21 +241,37 @@ class SCase(object):
         self.ignore, self.filt, self.matched = False, None, None
 
 
-def scan_fresh(c, limit):
-    """the scan of case c on a fresh Decoder"""
+SCAN_SECONDS = 2.0      # a scan / decode of a few hundred octets takes milliseconds
+SPIN = set()            # damaged messages on which a full decode is known not to come back within the limit
+
+
+def spins(c):
+    """case c contains a message already known to keep a full decode busy beyond the time limit"""
+    return (not c.info_only or c.filt is not None) and any(b in SPIN for b in c.cur)
+
+
+def scan_fresh(c, limit, digs=None):
+    """the scan of case c (on the long-lived Decoder of harness/objs.py); digs: list to receive one digest per item;
+    outcome 'timeout' when it does not come back within SCAN_SECONDS"""
+    if spins(c):
+        return [], 'timeout'
     return S.impl_scan(c.s, info_only=c.info_only, continue_on_error=c.cont, filter_expr=c.filt[0] if c.filt else None,
-                       ignore_expect=c.ignore, limit=limit)
+                       ignore_expect=c.ignore, limit=limit, digests=None if digs is None else (digs, digest),
+                       seconds=SCAN_SECONDS)
 
 
 def scan_model_req(c):
     return S.scan_req(c.s, c.info_only, c.cont, model_filter=c.filt[1] if c.filt else None, ignore_expect=c.ignore)
 
 
-def oracle(c, items, out):
-    """-> (violation description or None, counters)"""
+def oracle(c, items, out, digs=None):
+    """-> (violation description or None, counters); digs: None or one digest per item (compared with the fresh-process
+    reference for every undamaged message delivered)"""
     counters = []
     if out == 'err:other':
         return 'a non-library exception left the generator (after %d items)' % len(items), counters
+    if out == 'timeout':
+        return 'the scan does not come back within %g s (the decoder keeps spinning on a damaged message)' % SCAN_SECONDS, counters
     if out == 'limit':
         return 'the generator yields more items than the stream has messages', counters
     if c.ignore and any(d is not None and d[0].startswith(TOLERANT) for d in c.dmg):
@@ -154,7 +283,7 @@ def oracle(c, items, out):
     ioffs = locate_items(c.s, items)
     by_off = {o: i for i, o in enumerate(c.offs)}
     delivered = {}
-    for it, o in zip(items, ioffs):
+    for j, (it, o) in enumerate(zip(items, ioffs)):
         if o is None or o not in by_off:
             counters.append('item-not-at-a-message-start')
             return 'an item was yielded that does not start at a message of the stream (offset %s, %d bytes)' % (o, len(it)), counters
@@ -165,9 +294,14 @@ def oracle(c, items, out):
                 return 'undamaged message %d delivered with different bytes (%d instead of %d)' % (i, len(it), len(c.cur[i])), counters
             if c.matched is not None and not c.matched[i]:
                 return 'undamaged message %d does not satisfy the filter but was delivered' % i, counters
+            bad = ref_mismatch(c.cur[i], c.info_only, digs[j] if digs is not None and j < len(digs) else None)
+            if bad:
+                return 'undamaged message %d delivered with the right bytes but its %s' % (i, bad), counters
+            if digs is not None and c.cur[i] in REF:
+                counters.append('delivered-content-compared-with-fresh-process')
         else:
             kind = c.dmg[i][0]
-            if kind.startswith(TOLERANT) or c.info_only:
+            if kind.startswith(MAY_PARSE) or c.info_only:
                 counters.append('damaged-still-parsed:%s:%s' % (kind, 'info' if c.info_only else 'full'))
             elif c.ignore and kind == 'stop':
                 counters.append('damaged-stop-delivered-by-lenient-decode')
@@ -242,10 +376,13 @@ def shrink_and_sign(c, why):
         if d is None:
             continue
         c2 = single(c, i)
-        items, out = scan_fresh(c2, 5)
-        w2, _ = oracle(c2, items, out)
+        digs = []
+        items, out = scan_fresh(c2, 5, digs)
+        w2, _ = oracle(c2, items, out, digs)
         if w2 and w2.split(' (')[0][:60] == what:
             c, why = c2, w2
+            if out == 'timeout':
+                SPIN.add(c2.cur[0])
             break
     return c, why, signature(c, why)
 
@@ -300,9 +437,12 @@ def replay_obj(c, why):
 
 
 
-def run_streams(ctx, drv, treq, rng, nstreams):
-    pool = S.gen_messages(drv, rng, 60, needle_p=0.25)
+def run_streams(ctx, drv, treq, rng, nstreams, pool):
     pool = [m for m in pool if len(m.b) <= 400] or pool
+    bad = set(fresh_reference([m.b for m in pool]))
+    if bad:
+        ctx.count('generated-message-not-decoded-by-a-fresh-process', len(bad))      # C01's business, not a damage question
+        pool = [m for m in pool if m.b not in bad]
     variants = {id(m): damage_variants(rng, m) for m in pool}
     cases = []
     for si in range(nstreams):
@@ -318,9 +458,13 @@ def run_streams(ctx, drv, treq, rng, nstreams):
     chunk = 400
     for k0 in range(0, len(cases), chunk):
         part = cases[k0:k0 + chunk]
-        res = drv.batch([treq] + [scan_model_req(c) for c in part])[1:]
-        for c, r in zip(part, res):
-            items, out = scan_fresh(c, len(c.cur) + 4)
+        obs = []
+        for c in part:
+            digs = []
+            items, out = scan_fresh(c, len(c.cur) + 4, digs)
+            obs.append((items, out, digs))
+        res = model_scans(drv, treq, part, [o[1] for o in obs])
+        for c, r, (items, out, digs) in zip(part, res, obs):
             nd = sum(1 for d in c.dmg if d)
             ctx.case({'stream': c.s.hex()[:48], 'damage': [d[0] if d else None for d in c.dmg], 'info_only': c.info_only,
                       'continue': c.cont}, nontrivial=nd >= 1 and nd < len(c.dmg), sample=len(ctx.samples) < 4 and nd >= 1)
@@ -331,13 +475,24 @@ def run_streams(ctx, drv, treq, rng, nstreams):
                 if d:
                     ctx.count('damage:' + d[0])
             ctx.count('outcome:' + out)
-            judge_scan(ctx, c, items, out, r)
+            judge_scan(ctx, c, items, out, r, digs)
     return pool, variants
 
 
-def judge_scan(ctx, c, items, out, r):
+def model_scans(drv, treq, cases, outs):
+    """the model's `scan` for every case whose implementation run came back (the model mirrors the code: where the code
+    spins, so does the driver); None for the others"""
+    idx = [k for k, o in enumerate(outs) if o != 'timeout']
+    res = drv.batch([treq] + [scan_model_req(cases[k]) for k in idx], timeout=900)[1:] if idx else []
+    out = [None] * len(cases)
+    for k, r in zip(idx, res):
+        out[k] = r
+    return out
+
+
+def judge_scan(ctx, c, items, out, r, digs=None):
     """oracle on what the implementation delivered for case c, then implementation vs model response r"""
-    why, counters = oracle(c, items, out)
+    why, counters = oracle(c, items, out, digs)
     for k in counters:
         ctx.count(k)
     if why:
@@ -347,6 +502,8 @@ def judge_scan(ctx, c, items, out, r):
         c2, w2, sig = shrink_and_sign(c, why)
         ctx.violation('oracle: ' + w2 + (' [%s in %s]' % (sig['exc'], sig['where']) if 'exc' in sig else ''),
                       replay_obj(c2, w2), signature=sig)
+        return
+    if r is None:
         return
     mi = S.model_items(c.s, r)
     if r['outcome'] != out or mi != items:
@@ -373,7 +530,7 @@ def values_of(m):
     return repr((td.decoded_values_all_subsets, [[str(d) for d in ds] for ds in td.decoded_descriptors_all_subsets]))
 
 
-def truncation_message(treq, b, label, seed, points=None):
+def truncation_message(treq, b, label, seed, points=None, ref=None):
     """runs in a worker process -> {'fams':…, 'violations': [(what, replay, signature)], 'traces': n, 'trailing': n}"""
     import random
     from pybufrkit.decoder import Decoder
@@ -408,29 +565,36 @@ def truncation_message(treq, b, label, seed, points=None):
                 viol.append(('correspondence: first %d of %d bytes (info_only=%s): implementation %s, model %s' % (k, len(b), io_, fam, model),
                              {'message_hex': b.hex(), 'cut': k, 'info_only': io_, 'label': label},
                              {'stage': 'truncation', 'what': 'model differs', 'info_only': io_}))
-    # trailing bytes
-    fam, m0 = decode_family(Decoder(), b, False)
-    if fam != 'ok':
-        return {'machinery': 'valid message does not decode: %s' % label}
-    v0 = values_of(m0)
+    # the complete message after all that: on the Decoder that decoded (and failed on) every prefix, and on a new one;
+    # the yardstick is what a fresh PROCESS gives (state shared by all Decoder objects of this process would fool a
+    # comparison of the two)
+    if ref is None:
+        fresh_reference([b])
+        ref = REF[b]
+    if ref['full'][0] != 'ok':
+        return {'fams': fams, 'violations': viol[:5], 'traces': 2 * len(ks), 'trailing': 0, 'skipped': 'reference:' + ref['full'][0]}
+    want = ref['full'][2]
     ntrail = 0
-    # `dec` has by now decoded every prefix, full and metadata-only, and failed on nearly all of them
-    fam, m1 = decode_family(dec, b, False)
-    if fam != 'ok' or m1.serialized_bytes != b or values_of(m1) != v0:
-        viol.append(('history: after decoding every prefix of a message (full and metadata-only) on one Decoder, the complete '
-                     'message gives %s on it; on a fresh Decoder it decodes' % (fam if fam != 'ok' else 'a different result'),
-                     {'message_hex': b.hex(), 'label': label, 'history': 'all prefixes, full and info-only alternating'},
-                     {'stage': 'history', 'op': 'truncation', 'shared': fam, 'fresh': 'ok'}))
-        return {'fams': fams, 'violations': viol[:5], 'traces': 2 * len(ks), 'trailing': 0}
+    for who, d in (('the Decoder that has just decoded every prefix of it (full and metadata-only)', dec),
+                   ('a new Decoder of the process in which those prefixes were decoded', Decoder())):
+        fam, m1 = decode_family(d, b, False)
+        got = fam if fam != 'ok' else ('a different result' if (m1.serialized_bytes != b or digest(m1) != want) else None)
+        if got:
+            viol.append(('history: a fresh process decodes the message; %s gives %s' % (who, got),
+                         {'message_hex': b.hex(), 'label': label, 'history': 'all prefixes, full and info-only alternating',
+                          'points': points},
+                         {'stage': 'history', 'op': 'truncation', 'shared': fam, 'fresh': 'ok',
+                          'object': 'same' if d is dec else 'new'}))
+            return {'fams': fams, 'violations': viol[:5], 'traces': 2 * len(ks), 'trailing': 0}
     for t in (b'\0', b'7777', b'BUFR', b'BUF', S.noise(rng, 9), b, b[:len(b) // 2], b'\xff' * 5):
         fam, m1 = decode_family(dec, b + t, False)
         ntrail += 1
-        if fam != 'ok' or m1.serialized_bytes != b or values_of(m1) != v0:
+        if fam != 'ok' or m1.serialized_bytes != b or digest(m1) != want:
             viol.append(('oracle: %d trailing bytes change the decoding of a message (%s)' % (len(t), fam),
                          {'message_hex': b.hex(), 'trailing_hex': t.hex(), 'label': label},
                          {'stage': 'trailing', 'what': fam}))
         fam, m2 = decode_family(dec, b + t, True)
-        if fam != 'ok' or m2.serialized_bytes != b[:-4]:
+        if fam != 'ok' or m2.serialized_bytes != b[:-4] or digest(m2) != ref['info'][2]:
             viol.append(('oracle: %d trailing bytes change the metadata-only decoding (%s)' % (len(t), fam),
                          {'message_hex': b.hex(), 'trailing_hex': t.hex(), 'label': label, 'info_only': True},
                          {'stage': 'trailing-info', 'what': fam}))
@@ -441,14 +605,17 @@ def _trunc_star(a):
     return truncation_message(*a)
 
 
-def run_truncation(ctx, drv, treq, rng, nmsgs, ncorpus):
-    import multiprocessing
+def truncation_pool(drv, rng, nmsgs):
     pool = []
     tries = 0
     while len(pool) < nmsgs and tries < 12:
         tries += 1
         pool += [m for m in S.gen_messages(drv, rng, 60, needle_p=0.3) if len(m.b) <= 300]
-    pool = pool[:nmsgs]
+    return pool[:nmsgs]
+
+
+def run_truncation(ctx, drv, treq, rng, pool, ncorpus):
+    import multiprocessing
     jobs = []
     for m in pool:
         ctx.case({'truncate': m.b.hex()[:48], 'len': len(m.b), 'edition': m.edition, 'compressed': m.comp}, nontrivial=True,
@@ -478,11 +645,13 @@ def run_truncation(ctx, drv, treq, rng, nmsgs, ncorpus):
         ctx.count('truncated-corpus-files')
         ctx.count('truncation-points', len(points))
         jobs.append((treq2, b, os.path.basename(path), rng.randrange(1 << 30), points))
+    fresh_reference([j[1] for j in jobs])
+    jobs = [j + (REF[j[1]],) for j in jobs]
     with multiprocessing.Pool(min(16, os.cpu_count() or 4)) as mp:
         results = mp.map(_trunc_star, jobs, chunksize=1)
     for r in results:
-        if 'machinery' in r:
-            raise core.MachineryError(r['machinery'])
+        if 'skipped' in r:
+            ctx.count('truncation:complete-message-not-compared:' + r['skipped'])
         ctx.traces += r['traces']
         ctx.count('trailing-bytes', r['trailing'])
         for f, n in r['fams'].items():
@@ -581,8 +750,11 @@ def run_op(dec, op):
     o = Obs()
     o.items, o.exc = [], None
     err = io.StringIO()
+    if (op.case is not None and spins(op.case)) or (op.case is None and not op.info_only and op.data in SPIN):
+        o.out = 'timeout'
+        return o
     try:
-        with contextlib.redirect_stderr(err):
+        with contextlib.redirect_stderr(err), S.time_limit(SCAN_SECONDS):
             if op.kind == 'scan':
                 c = op.case
                 gen = generate_bufr_message(dec, op.data, info_only=op.info_only, continue_on_error=op.cont,
@@ -600,6 +772,10 @@ def run_op(dec, op):
                                 wire_template_data=False, **kw)
                 o.out = 'ok'
                 o.items.append((m.serialized_bytes, digest(m)))
+    except S.Timeout:
+        o.out = 'timeout'
+        if op.case is None:
+            SPIN.add(op.data)
     except Exception as e:  # noqa
         o.out = core.err_tag(e)
         o.exc = S.exc_detail(e)
@@ -656,12 +832,17 @@ def process_oracle(op, o):
     full = not op.info_only
     if o.out == 'err:other':
         return 'a non-library exception left the generator (here: Decoder.process on one message)'
+    if o.out == 'timeout':
+        return 'the scan does not come back within %g s (here: Decoder.process on one message keeps spinning)' % SCAN_SECONDS
     if v is None or v[0] == 'trail':
         want = op.orig if full else op.orig[:-4]
         if o.out != 'ok':
             return 'a valid message does not decode (%s)' % o.out
         if o.items[0][0] != want:
             return 'a valid message is delivered with different bytes (%d instead of %d)' % (len(o.items[0][0]), len(want))
+        bad = ref_mismatch(op.orig, op.info_only, o.items[0][1])
+        if bad:
+            return 'a valid message is delivered with the right bytes but its ' + bad
         return None
     kind = v[0]
     if kind == 'trunc':
@@ -676,6 +857,8 @@ def process_oracle(op, o):
         if o.out == 'ok' and full and not op.ignore:
             return 'message damaged by stop was delivered by a full decode'
         return None
+    if kind == 'undef-at':
+        return None         # a position the walk may never reach: the model decides (correspondence)
     if kind.startswith('undef'):
         if o.out == 'ok' and full:
             return 'message damaged by %s was delivered by a full decode' % kind
@@ -685,7 +868,7 @@ def process_oracle(op, o):
 
 def process_signature(op, o, why):
     kind = op.variant[0] if op.variant else 'none'
-    damaged = kind in ('stop', 'undef-elem', 'undef-seq', 'len-1', 'len+')
+    damaged = kind in ('stop', 'undef-elem', 'undef-seq', 'undef-at', 'len-1', 'len+', 'len=')
     sig = {'stage': 'oracle', 'what': why.split(' (')[0][:60], 'kinds': [kind] if damaged else [],
            'fault_classes': [fault_class(kind)] if damaged else [], 'info_only': op.info_only, 'continue': False,
            'ignore_expect': op.ignore, 'filter': False, 'op': op.kind, 'variant': kind,
@@ -750,18 +933,7 @@ def run_histories(ctx, drv, treq, rng, pool, variants, nsessions):
             else:
                 ops.append(gen_process_op(rng, sel, variants))
         sessions.append((sel, ops))
-    # the model's answer for every distinct operation that it can express
-    reqs, rkeys = [treq], []
-    seen = set()
-    for sel, ops in sessions:
-        for op in ops:
-            k = op.key()
-            if k in seen or op.kind == 'process-nosig':
-                continue
-            seen.add(k)
-            rkeys.append(k)
-            reqs.append(scan_model_req(op.case) if op.kind == 'scan' else S.scan_req(op.data, op.info_only, False, None, op.ignore))
-    model = dict(zip(rkeys, drv.batch(reqs)[1:]))
+    to_judge = []
     for si, (sel, ops) in enumerate(sessions):
         shared = Decoder()
         ctx.count('history:sessions')
@@ -796,7 +968,7 @@ def run_histories(ctx, drv, treq, rng, pool, variants, nsessions):
                 break       # the Decoder object is no longer in a defined state
             if k not in judged:
                 judged.add(k)
-                judge_op(ctx, op, got, model.get(k))
+                to_judge.append((k, op, got))
             # what later operations of this session come after
             prior.add('lenient' if op.ignore else 'strict')
             prior.add('info' if op.info_only else 'full')
@@ -804,12 +976,20 @@ def run_histories(ctx, drv, treq, rng, pool, variants, nsessions):
             prior.add(op.kind)
             if op.kind == 'scan' and op.case.filt:
                 prior.add('filter')
+    # the model's answer for every distinct operation that it can express and whose implementation run came back
+    # (the model mirrors the code: where the code spins, so does the driver); then oracle + correspondence
+    ask = [(k, op) for k, op, got in to_judge if op.kind != 'process-nosig' and got.out != 'timeout']
+    res = drv.batch([treq] + [scan_model_req(op.case) if op.kind == 'scan' else S.scan_req(op.data, op.info_only, False, None, op.ignore)
+                              for _, op in ask], timeout=900)[1:]
+    model = dict(zip([k for k, _ in ask], res))
+    for k, op, got in to_judge:
+        judge_op(ctx, op, got, model.get(k))
 
 
 def judge_op(ctx, op, got, r):
     """oracle and model for one operation whose observation `got` does not depend on the history"""
     if op.kind == 'scan':
-        judge_scan(ctx, op.case, [b for b, _ in got.items], got.out, r)
+        judge_scan(ctx, op.case, [b for b, _ in got.items], got.out, r, [d for _, d in got.items])
         return
     why = process_oracle(op, got)
     if why:
@@ -828,9 +1008,437 @@ def judge_op(ctx, op, got, r):
 
 
 # ---------------------------------------------------------------------------------------------
+# (E) declared-length sweep
+def sweep_values(rng, n, fx):
+    """declared lengths to try for a section of n octets whose fixed part has fx octets"""
+    if n + 4 <= 44:
+        vs = set(range(0, n + 4))
+    else:
+        vs = set(range(0, 17)) | set(range(max(0, fx - 3), fx + 4)) | set(range(n - 6, n + 4))
+        vs |= set(rng.randrange(17, n - 6) for _ in range(6))
+    vs |= {n + 16, n + 255, rng.choice([1 << 16, (1 << 24) - 1, n + 4096])}
+    vs.discard(n)
+    return sorted(vs)
+
+
+def run_length_sweep(ctx, drv, treq, rng, pool, nmsgs):
+    """[valid | message with the declared length of ONE section set to v | valid] for every section 1..4 and every v of
+    `sweep_values`, messages chosen to cover every (edition, section 2 present) combination of the pool"""
+    by_key = {}
+    for m in sorted(pool, key=lambda m: len(m.b)):
+        if len(m.b) <= 260:
+            by_key.setdefault((m.edition, m.sec2 is not None), []).append(m)
+    sel = []
+    while len(sel) < nmsgs and any(by_key.values()):
+        for k in sorted(by_key):
+            if by_key[k] and len(sel) < nmsgs:
+                lst = by_key[k]
+                sel.append(lst.pop(rng.randrange(min(4, len(lst)))))
+    cases = []
+    for m in sel:
+        secs = C.locate_sections(m.b)
+        for i in (1, 2, 3, 4):
+            if i not in secs:
+                continue
+            pos, n = secs[i]
+            fx = fixed_octets(i, m.edition)
+            for v in sweep_values(rng, n, fx):
+                if v < fx or abs(v - n) <= 3:
+                    modes = [(False, True), (True, True)]
+                    if rng.random() < 0.3:
+                        modes += [(False, False), (True, False)]
+                else:
+                    modes = [rng.choice([(False, True), (False, True), (True, True), (False, False), (True, False)])]
+                for io_, cont in modes:
+                    c = SCase()
+                    c.idx, c.orig = len(cases), None
+                    a, z = rng.choice(pool), rng.choice(pool)
+                    c.cur = [a.b, with_length(m.b, pos, v), z.b]
+                    c.dmg = [None, ('len=', [i, v, n, fx]), None]
+                    s = S.separator(rng)[1] if rng.random() < 0.3 else b''
+                    c.offs = []
+                    for b in c.cur:
+                        c.offs.append(len(s))
+                        s += b + (S.separator(rng)[1] if rng.random() < 0.5 else b'')
+                    c.s, c.info_only, c.cont = s, io_, cont
+                    cases.append(c)
+                    ctx.count('sweep:section%d:%s' % (i, 'below-fixed-part' if v < fx else ('below-real' if v < n else 'above-real')))
+        ctx.count('sweep:messages:edition%d:%s' % (m.edition, 'sec2' if m.sec2 is not None else 'nosec2'))
+    chunk = 400
+    for k0 in range(0, len(cases), chunk):
+        part = cases[k0:k0 + chunk]
+        obs = []
+        for c in part:
+            digs = []
+            items, out = scan_fresh(c, len(c.cur) + 4, digs)
+            obs.append((items, out, digs))
+        res = model_scans(drv, treq, part, [o[1] for o in obs])
+        for c, r, (items, out, digs) in zip(part, res, obs):
+            i, v, n, fx = c.dmg[1][1]
+            ctx.case({'sweep': c.cur[1].hex()[:40], 'section': i, 'declared': v, 'real': n, 'info_only': c.info_only,
+                      'continue': c.cont}, nontrivial=True, sample=False)
+            ctx.traces += 1
+            ctx.count('sweep:scans:%s:%s' % ('info' if c.info_only else 'full', 'continue' if c.cont else 'stop'))
+            ctx.count('sweep:outcome:' + out)
+            if v < fx:
+                # below the fixed part nothing can parse (theorem C12_short_section_length_refused): the damaged message is
+                # never delivered, by either kind of scan.  (Section 4: the metadata-only layout ends after the header.)
+                by_off = {o: j for j, o in enumerate(c.offs)}
+                if any(by_off.get(o) == 1 for o in locate_items(c.s, items)):
+                    w = 'a message whose section %d declares %d octets, less than the %d of its fixed part, was delivered (%s)' % (
+                        i, v, fx, 'metadata-only' if c.info_only else 'full decode')
+                    ctx.violation('oracle: ' + w, replay_obj(c, w), signature={'stage': 'oracle', 'what': 'short section delivered',
+                                                                               'section': i, 'info_only': c.info_only})
+                    continue
+            judge_scan(ctx, c, items, out, r, digs)
+
+
+# ---------------------------------------------------------------------------------------------
+# (F) aborted template walks
+SCOPE_OPS = {201: '201', 202: '202', 204: '204', 207: '207', 208: '208'}
+
+
+def walk_scopes(ids):
+    """per position k of the unexpanded descriptor list: the names of what is in force / open when the walk arrives at
+    descriptor k (top-level view; what is inside Table D sequences is not looked at)"""
+    out = []
+    open_ = {}
+    rep = 0          # descriptors still inside the span of a replication
+    dnp = 0
+    skip206 = False
+    bitmap = None    # None | 'indicator' | 'bits'
+    for k, i in enumerate(ids):
+        sc = set(n for n, v in open_.items() if v)
+        if rep:
+            sc.add('replication')
+            rep -= 1
+        if dnp:
+            sc.add('221')
+            dnp -= 1
+        if skip206:
+            sc.add('206')
+            skip206 = False
+        if bitmap:
+            sc.add('bitmap-definition')
+        out.append(sorted(sc))
+        f, x, y = i // 100000, i // 1000 % 100, i % 1000
+        if bitmap == 'indicator' and i not in (236000,):
+            bitmap = 'bits' if i != 237000 else None
+        elif bitmap == 'bits' and f == 0 and i != 31031 and x != 31:
+            bitmap = None
+        if f == 1:
+            rep = max(rep, x + (1 if y == 0 else 0))
+        elif f == 2:
+            op = i // 1000
+            if op == 204:
+                open_['204'] = open_.get('204', 0) + 1 if y else max(0, open_.get('204', 0) - 1)
+            elif op in SCOPE_OPS:
+                open_[SCOPE_OPS[op]] = 1 if y else 0
+            elif op == 203:
+                if y == 0:
+                    open_['203'] = open_['203-definition'] = 0
+                elif y == 255:
+                    open_['203-definition'] = 0
+                    open_['203'] = 1
+                else:
+                    open_['203-definition'] = 1
+            elif op == 206:
+                skip206 = True
+            elif op == 221:
+                dnp = y
+            elif op in (222, 223, 224, 225, 232) and y == 0:
+                bitmap = 'indicator'
+    return out
+
+
+def abort_points(rng, b, ids, ncuts):
+    """-> [(kind, detail, damaged bytes)]: an undefined element and an undefined sequence at EVERY position of the
+    descriptor list; the message cut at `ncuts` byte positions inside the data section (all of them when there are fewer);
+    one overwritten stop signature and one section-3 length below the fixed part (no walk at all: controls)"""
+    secs = C.locate_sections(b)
+    pos3, _ = secs[3]
+    pos4, n4 = secs[4]
+    out = []
+    for k in range(len(ids)):
+        out.append(('undef-elem', k, with_descriptor(b, pos3, k, S.UNDEF_ELEM)))
+        out.append(('undef-seq', k, with_descriptor(b, pos3, k, S.UNDEF_SEQ)))
+    cuts = list(range(pos4 + 4, pos4 + n4))
+    if len(cuts) > ncuts:
+        step = len(cuts) / float(ncuts)
+        cuts = sorted(set([cuts[int(j * step)] for j in range(ncuts)] + [rng.choice(cuts) for _ in range(4)]))
+    for cut in cuts:
+        out.append(('trunc', cut, b[:cut]))
+    out.append(('stop', '7776', b[:-4] + b'7776'))
+    out.append(('len=', [3, 5], with_length(b, pos3, 5)))
+    return out
+
+
+def decode_obs(dec, b):
+    """-> (outcome, serialized bytes or None, digest or None, subsets for the model comparison or None, exception detail)"""
+    if b in SPIN:
+        return 'timeout', None, None, None, None
+    try:
+        with contextlib.redirect_stderr(io.StringIO()), S.time_limit(SCAN_SECONDS):
+            m = dec.process(b, wire_template_data=False)
+    except S.Timeout:
+        SPIN.add(b)
+        return 'timeout', None, None, None, None
+    except Exception as e:  # noqa
+        return core.err_tag(e), None, None, None, S.exc_detail(e)
+    td = m.template_data.value
+    subs = [{'d': [str(d) for d in td.decoded_descriptors_all_subsets[i]], 'v': list(td.decoded_values_all_subsets[i]),
+             'l': sorted([a, o] for a, o in td.bitmap_links_all_subsets[i].items())} for i in range(m.n_subsets.value)]
+    return 'ok', m.serialized_bytes, digest(m), subs, None
+
+
+def aborted_replay(abort, who, probe_b, probe_on, why):
+    kind, detail, data = abort
+    return {'aborted': {'kind': kind, 'detail': detail, 'hex': data.hex(), 'on': who}, 'probe_hex': probe_b.hex(),
+            'probe_on': probe_on, 'why': why}
+
+
+# CoderState attribute -> field of the model's `Regs` (lean/BufrModel/Coder/Regs.lean; None: not carried by the model)
+REGISTERS = [('nbits_offset', 'nbitsOffset'), ('scale_offset', 'scaleOffset'), ('nbits_of_new_refval', 'nbitsNewRefval'),
+             ('new_refvals', 'newRefvals'), ('nbits_of_associated', 'assocStack'),
+             ('nbits_of_skipped_local_descriptor', 'nbitsSkipped'), ('bsr_modifier', 'y207'), ('new_nbytes', 'newNbytes'),
+             ('data_not_present_count', 'dnpCount'), ('status_qa_info_follows', 'qa'), ('bitmap_definition_state', 'bitmapDef'),
+             ('n_031031', 'n031031'), ('bitmapped_descriptors', 'bitmapped'), ('next_bitmapped_descriptor', 'bmIter'),
+             ('back_reference_boundary', 'backBoundary'), ('back_referenced_descriptors', 'backRefs'),
+             ('bitmap', None), ('most_recent_bitmap_is_for_reuse', None)]
+
+
+def coder_state_check():
+    """The tie of `Regs.reset r = {}` (theorem C12_aborted_reset_assigns_every_register) to coder.CoderState: a new
+    state, and a state with every register dirtied after `switch_subset_context`, hold the model's initial values; the
+    mutable registers are objects of their own (what one state appends to is not what the next one starts with).
+    -> list of problems (empty: fine)"""
+    from pybufrkit import coder
+    init = {'nbits_offset': 0, 'scale_offset': 0, 'nbits_of_new_refval': 0, 'new_refvals': {}, 'nbits_of_associated': [],
+            'nbits_of_skipped_local_descriptor': 0, 'bsr_modifier': (0, 0, 1), 'new_nbytes': 0, 'data_not_present_count': 0,
+            'status_qa_info_follows': coder.QA_INFO_NA, 'bitmap_definition_state': coder.BITMAP_NA, 'n_031031': 0,
+            'bitmapped_descriptors': None, 'next_bitmapped_descriptor': None, 'back_reference_boundary': 0,
+            'back_referenced_descriptors': None, 'bitmap': None, 'most_recent_bitmap_is_for_reuse': False}
+
+    def differs(st):
+        out = []
+        for attr, field in REGISTERS:
+            v = getattr(st, attr, 'ABSENT')
+            if attr == 'bsr_modifier' and v != 'ABSENT':
+                v = tuple(v)
+            if v != init[attr]:
+                out.append('%s (model: %s) is %r, initial value %r' % (attr, field, v, init[attr]))
+        return out
+    problems = []
+    try:
+        a = coder.CoderState(False, 1)
+        problems += ['a new CoderState: ' + d for d in differs(a)]
+        # what one state does to its mutable registers
+        a.nbits_of_associated.append(4)
+        a.new_refvals[1001] = 5
+        b = coder.CoderState(True, 2)
+        problems += ['a new CoderState after another one appended to its 204 stack / new reference values: ' + d for d in differs(b)]
+        # every register dirty, then the start of the next subset
+        for attr, _ in REGISTERS:
+            setattr(a, attr, ('dirty', attr))
+        a.switch_subset_context(0)
+        problems += ['a dirtied CoderState after switch_subset_context: ' + d for d in differs(a)]
+    except Exception as e:  # noqa
+        problems.append('CoderState cannot be exercised: %s: %s' % (type(e).__name__, e))
+    return problems
+
+
+def coder_state_violation(ctx, problems, after):
+    why = 'the registers of the coder state are not the initial ones %s: %s' % (after, '; '.join(problems[:3]))
+    ctx.violation('correspondence: ' + why + ' (model: Regs.reset r = {}, theorem C12_aborted_reset_assigns_every_register)',
+                  {'coder_state': problems, 'after': after},
+                  signature={'stage': 'coder-state', 'registers': sorted(set(p.split(': ')[1].split(' ')[0] for p in problems))})
+
+
+def make_decoder(which):
+    from pybufrkit.decoder import Decoder
+    return Decoder(compiled_template_cache_max=20) if which == 'compiled' else Decoder()
+
+
+def probe_after_abort(ctx, abort, who, decs, probe_b, probe_on):
+    """decode the valid message probe_b on decoder `probe_on` ('plain' | 'compiled' | 'new' | 'new-compiled') after the
+    abort; -> True when it gives what the fresh process gave"""
+    dec = decs[probe_on] if probe_on in decs else make_decoder('compiled' if probe_on == 'new-compiled' else 'plain')
+    out, sb, dg, _, exc = decode_obs(dec, probe_b)
+    want = REF[probe_b]['full']
+    ctx.traces += 1
+    ctx.count('aborted:probe:' + ('same-object' if probe_on == who else probe_on) + (':canary' if probe_b[:4] == b'BUFR' and probe_b in CANARY_SET else ''))
+    if out == 'ok' and sb == probe_b and dg == want[2]:
+        return True
+    got = out if out != 'ok' else 'different values / descriptors / bytes'
+    same = 'the same' if probe_on == who else ('a brand-new' if probe_on.startswith('new') else 'another')
+    why = ('after a decode aborted by %s (%s) on the %s Decoder, a valid message decoded on %s %s Decoder gives %s; '
+           'a fresh process decodes it' % (abort[0], abort[1], who, same, 'compiled' if 'compiled' in probe_on else 'plain', got))
+    sig = {'stage': 'aborted-walk', 'abort': abort[0], 'abort_on': who, 'probe_on': 'same' if probe_on == who else probe_on,
+           'got': out}
+    if exc:
+        sig.update(exc)
+    ctx.violation('history: ' + why, aborted_replay(abort, who, probe_b, probe_on, why), signature=sig)
+    return False
+
+
+CANARY_IDS = [12001, 1015, 20003, 11002]
+CANARY_SET = set()
+
+
+def canaries():
+    """two small valid messages whose FIRST descriptors are sensitive to every register a walk can leave behind: a numeric
+    element of class 12 with a scale (221 would skip it, 201 / 202 / 207 change its width or scale, 203 reads it as a new
+    reference value, 204 puts an associated field in front of it, 206 reads it as a skipped local descriptor), a character
+    element (208), a code table, another numeric; one uncompressed, one compressed with two subsets and another edition.
+    Built through the implementation's Encoder: call before anything damaged is decoded."""
+    out = []
+    for vals, comp, ed in (([[21.5, 'CANARY', 3, 4.5]], False, 4),
+                           ([[21.5, 'CANARY', 3, 4.5], [22.5, 'CANARY', 3, 4.0]], True, 3)):
+        st, b, _ = C.impl_encode(C.make_message_json(CANARY_IDS, vals, comp, edition=ed))
+        if st == 'ok':
+            out.append(b)
+            CANARY_SET.add(b)
+    return out
+
+
+def run_aborted_walks(ctx, drv, treq, rng, pool, nmsgs, ncorpus, ncuts, canary):
+    from pybufrkit.decoder import Decoder
+    canary = [b for b in canary if not fresh_reference([b])]
+    # generated messages whose template has operator scopes / bitmaps / replications, preferring distinct scope kinds
+    cand = []
+    for m in pool:
+        if len(m.b) > 300 or len(m.ids) > 40:
+            continue
+        sc = set(x for s_ in walk_scopes(m.ids) for x in s_)
+        if sc:
+            cand.append((m, sc))
+    rng.shuffle(cand)
+    sel, covered = [], set()
+    for _ in range(nmsgs):
+        best = max(cand, key=lambda t: (len(t[1] - covered), -len(t[0].b)), default=None)
+        if best is None:
+            break
+        cand.remove(best)
+        covered |= best[1]
+        sel.append((best[0].b, best[0].ids, treq, 'generated', best[0]))
+    # sample files whose operators sit inside Table D sequences / that carry bitmaps (other table versions)
+    names = ['uegabe.bufr', 'profiler_european.bufr', 'contrived.bufr', 'b005_89.bufr', '207003.bufr', 'amv2_87.bufr',
+             'IUSK73_AMMC_182300.bufr', 'ISMD01_OKPR.bufr', 'jaso_214.bufr']
+    rng.shuffle(names)
+    used = 0
+    for name in names:
+        if used >= ncorpus:
+            break
+        path = os.path.join(core.REPO, 'tests', 'data', name)
+        if not os.path.exists(path) or os.path.getsize(path) > 1200:
+            continue
+        raw = open(path, 'rb').read()
+        b = raw[raw.find(b'BUFR'):]
+        if fresh_reference([b]):
+            continue
+        b = b[:REF[b]['full'][1]]
+        if fresh_reference([b]):
+            continue
+        wmo_sn, local_sn = tables_io.expected_sn(*tables_io.section1_values(b))
+        treq2 = tables_io.tables_request(*tables_io.read_group(wmo_sn, local_sn))
+        nsub, comp, ids = P.parse_section3(b)
+        sel.append((b, ids, treq2, name, None))
+        used += 1
+    probes_other = [m.b for m in pool[:3]]
+    decs = {'plain': Decoder(), 'compiled': Decoder(compiled_template_cache_max=20)}
+    healthy = True
+    state_ok = not os.environ.get('VERIF_C12_NO_STATE_CHECK')      # switched off by the mutation self-test only
+    problems = coder_state_check() if state_ok else []
+    ctx.count('aborted:coder-state-checks')
+    if problems:
+        state_ok = False
+        coder_state_violation(ctx, problems, 'in a process that has not aborted any walk')
+    model_reqs = {}
+    impl_abort = []
+    for b, ids, tq, label, m in sel:
+        if not healthy:
+            break
+        scopes = walk_scopes(ids)
+        pts = abort_points(rng, b, ids, ncuts)
+        ctx.count('aborted:messages:' + ('generated' if m is not None else 'corpus'))
+        for n_, (kind, detail, data) in enumerate(pts):
+            for who in ('plain', 'compiled'):
+                out, _, _, _, exc = decode_obs(decs[who], data)
+                ctx.case({'aborted': data.hex()[:40] + '/%d' % len(data), 'kind': kind, 'detail': detail, 'on': who,
+                          'label': label}, nontrivial=kind != 'stop', sample=False)
+                ctx.traces += 1
+                ctx.count('aborted:%s:%s' % (kind, out))
+                if kind.startswith('undef'):
+                    for s_ in (scopes[detail] or ['no-scope']):
+                        ctx.count('aborted:undef-inside:' + s_)
+                if out == 'err:other':
+                    why = 'a message damaged by %s (%s) raises a non-library exception [%s in %s]' % (kind, detail, exc['exc'], exc['where'])
+                    sig = {'stage': 'oracle', 'what': 'a non-library exception left the generator', 'kinds': [kind],
+                           'fault_classes': [fault_class(kind) if kind != 'trunc' else 'truncation'], 'op': 'process', 'compiled': who == 'compiled'}
+                    sig.update(exc)
+                    ctx.violation('oracle: ' + why, aborted_replay((kind, detail, data), who, b, who, why), signature=sig)
+                if out == 'timeout':
+                    why = 'a message damaged by %s (%s) keeps Decoder.process spinning for more than %g s' % (kind, detail, SCAN_SECONDS)
+                    ctx.violation('oracle: ' + why, aborted_replay((kind, detail, data), who, b, who, why),
+                                  signature={'stage': 'oracle', 'what': 'the scan does not come back within %g s' % SCAN_SECONDS,
+                                             'kinds': [kind], 'fault_classes': [fault_class(kind) if kind != 'trunc' else 'truncation']})
+                elif who == 'plain':
+                    impl_abort.append((tq, kind, detail, data, out, label))
+                if state_ok:
+                    problems = coder_state_check()
+                    ctx.count('aborted:coder-state-checks')
+                    if problems:
+                        state_ok = False
+                        coder_state_violation(ctx, problems, 'after a decode aborted by %s (%s) on the %s Decoder' % (kind, detail, who))
+                # at once: the valid message on the same object, on the other one; now and then on brand-new ones and
+                # another message
+                todo = [(b, who), (b, 'compiled' if who == 'plain' else 'plain')]
+                if canary:
+                    # the canary first on even aborts (a register that runs down - 221, 206 - is used up by the first walk
+                    # that meets it, visibly only when that walk starts with an element it applies to), last on odd ones
+                    cn = (canary[(n_ // 2) % len(canary)], who)
+                    todo = [cn] + todo if n_ % 2 == 0 else todo + [cn]
+                if n_ % 4 == 0:
+                    todo += [(b, 'new'), (b, 'new-compiled'), (rng.choice(probes_other), who)]
+                for pb, on in todo:
+                    if not probe_after_abort(ctx, (kind, detail, data), who, decs, pb, on):
+                        healthy = False
+                        break
+                if not healthy:
+                    break
+            if not healthy:
+                break       # everything that follows would repeat the same report
+    # the aborted decodes themselves against the model's error family
+    by_tq = {}
+    for tq, kind, detail, data, out, label in impl_abort:
+        by_tq.setdefault(id(tq), (tq, []))[1].append((kind, detail, data, out, label))
+    for tq, lst in by_tq.values():
+        res = drv.batch([tq] + [S.scan_req(data, False, False) for _, _, data, _, _ in lst])[1:]
+        for (kind, detail, data, out, label), r in zip(lst, res):
+            fam, consumed = model_of_process(r)
+            if fam != out:
+                w = 'message damaged by %s (%s): Decoder.process gives %s, model %s (%s)' % (kind, detail, out, fam, label)
+                ctx.violation('correspondence: ' + w, aborted_replay((kind, detail, data), 'plain', data, 'plain', w),
+                              signature={'stage': 'correspondence', 'op': 'aborted-walk', 'variant': kind, 'impl': out, 'model': fam})
+    # at the end of the whole history of aborts: the long-lived decoders against the Lean coder model, value by value
+    if healthy:
+        for b, ids, tq, label, m in sel:
+            nsub, comp, ids3 = P.parse_section3(b)
+            r = drv.batch([tq, {'op': 'dec-data', 'ids': ids3, 'compressed': comp, 'n': nsub, 'bits': C.data_bits(b)}])[1]
+            for who in ('plain', 'compiled'):
+                out, sb, dg, subs, exc = decode_obs(decs[who], b)
+                ctx.traces += 1
+                ctx.count('aborted:final-model-comparison')
+                d = P.compare_decode((out, subs, len(sb) if sb else None), r)
+                if d:
+                    w = 'after the history of aborted decodes the %s Decoder and the coder model differ on a valid message (%s): %s' % (who, label, d)
+                    ctx.violation('correspondence: ' + w, aborted_replay(('none', 0, b), who, b, who, w),
+                                  signature={'stage': 'correspondence', 'op': 'after-aborted-walks', 'compiled': who == 'compiled'})
+
+
+# ---------------------------------------------------------------------------------------------
 # (C) command line
-def run_cli(ctx, drv, treq, rng):
-    pool = [m for m in S.gen_messages(drv, rng, 20, needle_p=0.0) if len(m.b) <= 400]
+def run_cli(ctx, drv, treq, rng, pool):
     tmp = tempfile.mkdtemp(prefix='verif_c12_', dir='/tmp')
     env = dict(os.environ, PYTHONPATH=core.REPO)
     try:
@@ -846,6 +1454,14 @@ def run_cli(ctx, drv, treq, rng):
             ('info-no-signature', ['info'], b'no message here', 0),
             ('info-m-continue', ['info', '-m', '--continue-on-error'], good + v['stop'][:30] , None),
         ]
+        # a declared section length below the section's fixed part, one random section per run
+        secs = C.locate_sections(m.b)
+        for name, args, nmsg in (('decode-m-short-section', ['decode', '-m'], None),
+                                 ('decode-m-continue-short-section', ['decode', '-m', '--continue-on-error'], 2),
+                                 ('info-m-short-section', ['info', '-m'], None)):
+            i = rng.choice([k for k in (1, 2, 3, 4) if k in secs])
+            short = with_length(m.b, secs[i][0], rng.randrange(0, fixed_octets(i, m.edition)))
+            runs.append((name, args, good + short + good, nmsg))
         for name, args, data, nmsg in runs:
             ctx.case({'cli': name, 'args': args}, nontrivial=True)
             ctx.count('cli-runs')
@@ -885,15 +1501,45 @@ def run(ctx):
     quick = ctx.tier == 'quick'
     import time
     t0 = time.time()
-    pool, variants = run_streams(ctx, drv, treq, ctx.rng('streams'), 16 if quick else 160)
-    t1 = time.time()
-    run_histories(ctx, drv, treq, ctx.rng('history'), pool, variants, 240 if quick else 2400)
-    th = time.time() - t1
-    t1 = time.time()
-    run_truncation(ctx, drv, treq, ctx.rng('trunc'), 40 if quick else 400, 4 if quick else 30)
-    t2 = time.time()
-    run_cli(ctx, drv, treq, ctx.rng('cli'))
-    ctx.notes.append('wall: streams %.1fs, histories %.1fs, truncation %.1fs, cli %.1fs' % (t1 - th - t0, th, t2 - t1, time.time() - t2))
+    wall = []
+    # every valid message of the run is generated (through the implementation's Encoder) BEFORE this process decodes
+    # anything damaged: what a broken implementation leaves behind after a failed decode must not reach the generators
+    rs, rt, rc = ctx.rng('streams'), ctx.rng('trunc'), ctx.rng('cli')
+    pool_s = S.gen_messages(drv, rs, 60, needle_p=0.25)
+    pool_t = truncation_pool(drv, rt, 32 if quick else 400)
+    pool_c = [m for m in S.gen_messages(drv, rc, 20, needle_p=0.0) if len(m.b) <= 400]
+    canary = canaries()
+    if len(pool_s) < 8 or len(pool_t) < 8 or len(pool_c) < 2:
+        raise core.MachineryError('message generation gives too few valid messages (%d, %d, %d)' % (len(pool_s), len(pool_t), len(pool_c)))
+
+    def timed(name, f, *a):
+        t = time.time()
+        try:
+            return f(*a)
+        except core.MachineryError:
+            raise
+        except Exception:  # noqa
+            # the harness itself stumbles over the implementation's behaviour.  When violations (with replays) have
+            # been reported already this is one more symptom of the broken implementation, not a machinery problem
+            if not ctx.violations:
+                raise
+            import traceback
+            ctx.notes.append('part `%s` of the check was abandoned after violations had been reported: %s' % (
+                name, traceback.format_exc().strip().split('\n')[-1][:200]))
+            ctx.count('part-abandoned-after-violations:' + name)
+        finally:
+            wall.append('%s %.1fs' % (name, time.time() - t))
+    pool, variants = timed('streams', run_streams, ctx, drv, treq, rs, 16 if quick else 160, pool_s) or (None, None)
+    if pool is None:
+        pool = [m for m in pool_s if len(m.b) <= 400]
+        variants = {id(m): damage_variants(rs, m) for m in pool}
+    timed('length sweep', run_length_sweep, ctx, drv, treq, ctx.rng('sweep'), pool, 6 if quick else 30)
+    timed('aborted walks', run_aborted_walks, ctx, drv, treq, ctx.rng('aborted'), pool, 5 if quick else 30, 2 if quick else 6,
+          24 if quick else 120, canary)
+    timed('histories', run_histories, ctx, drv, treq, ctx.rng('history'), pool, variants, 240 if quick else 2400)
+    timed('truncation', run_truncation, ctx, drv, treq, rt, pool_t, 4 if quick else 30)
+    timed('cli', run_cli, ctx, drv, treq, rc, pool_c)
+    ctx.notes.append('wall: ' + ', '.join(wall))
 
 
 def replay(ctx, path):
@@ -914,9 +1560,34 @@ def replay(ctx, path):
             shutil.rmtree(tmp, ignore_errors=True)
         print('replay: pybufrkit %s -> %s' % (' '.join(rep['cli']), bad or 'library error reported without a traceback'))
         return
+    if 'coder_state' in rep:
+        problems = coder_state_check()
+        print('replay: registers of a new / a reset CoderState:', problems or 'the initial values of the model')
+        if problems:
+            coder_state_violation(ctx, problems, 'in a fresh process')
+        else:
+            print('        (the recorded difference appeared %s)' % rep.get('after'))
+        return
+    if 'aborted' in rep:
+        a = rep['aborted']
+        data, pb = bytes.fromhex(a['hex']), bytes.fromhex(rep['probe_hex'])
+        if fresh_reference([pb]):
+            print('replay: the probe message does not decode in a fresh process:', REF[pb])
+            return
+        decs = {'plain': make_decoder('plain'), 'compiled': make_decoder('compiled')}
+        out, _, _, _, exc = decode_obs(decs[a['on']], data)
+        print('replay: %s Decoder, message damaged by %s (%s): %s %s' % (a['on'], a['kind'], a['detail'], out, exc or ''))
+        if out == 'err:other':
+            ctx.violation('oracle: a damaged message raises a non-library exception [%s in %s]' % (exc['exc'], exc['where']), rep,
+                          signature=dict({'stage': 'oracle', 'what': 'a non-library exception left the generator',
+                                          'kinds': [a['kind']], 'fault_classes': [fault_class(a['kind']) if a['kind'] != 'trunc' else 'truncation']}, **exc))
+        ok = probe_after_abort(ctx, (a['kind'], a['detail'], data), a['on'], decs, pb, rep['probe_on'])
+        print('        then the valid message on the %s Decoder: %s' % (rep['probe_on'], 'as in a fresh process' if ok else 'DIFFERENT from a fresh process'))
+        return
     if 'probe' in rep:
         from pybufrkit.decoder import Decoder
         hist = [HOp.from_json(d) for d in rep['history']]
+        fresh_reference([h.orig for h in hist + [HOp.from_json(rep['probe'])] if h.orig is not None])
         op = HOp.from_json(rep['probe'])
         shared = Decoder()
         for h in hist:
@@ -933,7 +1604,7 @@ def replay(ctx, path):
                           rep, signature={'stage': 'history', 'op': op.flags(), 'shared': got.out, 'fresh': fresh.out})
             return
         r = None
-        if op.kind != 'process-nosig':
+        if op.kind != 'process-nosig' and got.out != 'timeout':
             r = drv.batch([treq, scan_model_req(op.case) if op.kind == 'scan' else S.scan_req(op.data, op.info_only, False, None, op.ignore)])[1]
             print('        model:', r)
         judge_op(ctx, op, got, r)
@@ -941,7 +1612,7 @@ def replay(ctx, path):
     if 'message_hex' in rep and 'history' in rep:
         from pybufrkit.decoder import Decoder
         b = bytes.fromhex(rep['message_hex'])
-        r = truncation_message(treq, b, rep.get('label', 'replay'), 0)
+        r = truncation_message(treq, b, rep.get('label', 'replay'), 0, rep.get('points'))
         for what, rep2, sig in r.get('violations', []):
             print('replay:', what)
             ctx.violation(what, rep2, signature=sig)
@@ -963,14 +1634,16 @@ def replay(ctx, path):
             print('replay: with trailing bytes:', fam, m and len(m.serialized_bytes), 'of', len(b))
         return
     c = scase_from_replay(rep)
-    items, out = scan_fresh(c, len(c.cur) + 4)
-    r = drv.batch([treq, scan_model_req(c)])[1]
-    why, counters = oracle(c, items, out)
+    fresh_reference([b for b, d in zip(c.cur, c.dmg) if d is None])
+    digs = []
+    items, out = scan_fresh(c, len(c.cur) + 4, digs)
+    r = model_scans(drv, treq, [c], [out])[0]
+    why, counters = oracle(c, items, out, digs)
     print('replay: damage', c.dmg, '(ignore_value_expectation=%s, filter=%s)' % (c.ignore, c.filt[0] if c.filt else None))
     print('        implementation', out, [len(x) for x in items])
-    print('        model', r['outcome'], r['items'])
+    print('        model', (r['outcome'], r['items']) if r else 'not asked (the model mirrors the code: the driver would spin as well)')
     print('        oracle:', why or 'holds', counters)
     if why:
         ctx.violation('oracle: ' + why, rep, signature=signature(c, why))
-    elif r['outcome'] != out or S.model_items(c.s, r) != items:
+    elif r is not None and (r['outcome'] != out or S.model_items(c.s, r) != items):
         ctx.violation('correspondence: model and implementation differ', rep, signature={'stage': 'correspondence'})
